@@ -160,10 +160,10 @@ extern "C" int epoll_wait(int epfd, struct epoll_event* evs, int maxevents, int 
     first = 0;
   }
   fputc(']', g_out);
-  int onlyInterrupt = 1;
-  for(int i = 0; i < out; ++i) if(evs[i].data.ptr) onlyInterrupt = 0;
+  int irq = 0;
+  for(int i = 0; i < out; ++i) if(!evs[i].data.ptr) irq = 1;
   if(out == 0 && timeout > 0) vnow += timeout;            // nothing to report: the time-out elapses
-  j_int("after", vnow); j_bool("irq", out > 0 && onlyInterrupt);
+  j_int("after", vnow); j_bool("irq", irq);
   j_end();
   return out;
 }
@@ -234,6 +234,7 @@ static void parse_outcome(const char* o)
 static void op_pair(int c, const char* in)
 {
   if(c < 1 || c > NC || cl[c]) { ev_begin("nop"); j_end(); return; }
+  delete peer[c];
   peer[c] = new Socket;
   cl[c] = srv->pair(*ccb[c], *peer[c]);
   clfd[c] = cl[c] ? (int)cl[c]->getSocket().getFileDescriptor() : -1;
